@@ -3,7 +3,10 @@ use crate::errors::ArchiveError;
 use crate::{Endian, EndianAwareReader, EndianAwareWriter};
 use encoding_rs::SHIFT_JIS;
 use indexmap::IndexMap;
+#[cfg(not(feature = "verif-hooks"))]
 use std::collections::{HashMap, HashSet};
+#[cfg(feature = "verif-hooks")]
+use {crate::verif_hooks::HashMap, std::collections::HashSet};
 use std::io::{Cursor, Read, Seek, SeekFrom, Write};
 
 type Result<T> = std::result::Result<T, ArchiveError>;
@@ -709,6 +712,19 @@ impl BinArchive {
         }
         result.sort_by(|a, b| a.0.cmp(&b.0));
         result
+    }
+}
+
+#[cfg(feature = "verif-hooks")]
+impl BinArchive {
+    /// Iteration order of the annotation maps (verification hook, observation only).
+    pub fn verif_iteration_orders(&self) -> crate::verif_hooks::BinArchiveIterationOrders {
+        crate::verif_hooks::BinArchiveIterationOrders {
+            text: self.text.keys().copied().collect(),
+            pointers: self.pointers.keys().copied().collect(),
+            labels: self.labels.keys().copied().collect(),
+            cstrings: self.cstrings.keys().cloned().collect(),
+        }
     }
 }
 
